@@ -514,11 +514,13 @@ pub fn hostile_delta() -> BoxedStrategy<u64> {
 
 pub fn seg(hostile: bool) -> BoxedStrategy<Seg> {
     let jit = (1usize..=60, 1u64..=2000, 1u64..=500).prop_map(|(n, lo, spread)| Seg::Jitter { n, lo, spread });
-    // mostly short; sometimes long runs (dozens of consecutive stuck measurements)
-    let run = || prop_oneof![6 => 1usize..=12, 1 => 40usize..=130];
+    // mostly short; sometimes long runs (dozens of consecutive stuck measurements), rarely very
+    // long ones (more than 256 consecutive stuck measurements inside one round: three readings
+    // per measurement)
+    let run = || prop_oneof![18 => 1usize..=12, 3 => 40usize..=130, 1 => 900usize..=1600];
     let eq = (run(), 1u64..=100_000).prop_map(|(n, d)| Seg::Equal { n, d });
     let ar = (run(), 1u64..=10_000, 1u64..=500).prop_map(|(n, d0, step)| Seg::Arith { n, d0, step });
-    let zero = prop_oneof![6 => 1usize..=7, 1 => 30usize..=90].prop_map(|n| Seg::Zero { n });
+    let zero = prop_oneof![18 => 1usize..=7, 3 => 30usize..=90, 1 => 900usize..=1600].prop_map(|n| Seg::Zero { n });
     let small_lit = vec(1u64..=3000, 1..=10).prop_map(Seg::Lit);
     if hostile {
         let lit = vec(prop_oneof![2 => hostile_delta(), 1 => 1u64..=3000], 1..=8).prop_map(Seg::Lit);
